@@ -20,8 +20,8 @@ var (
 	leavesOpts = []string{"-a", "-b", "X"} // two options consumable at several points of one run (backtracking completeness)
 	// the alternative declarations (ref.Alt): long name first, two short names, three names
 	// declaration set "num" (digit-named flag, folds that read like numbers)
-	leavesNum = []string{"OPTIONS", "--ipv4", "-i", "-n", "-f", "-inf", "-p", "X"}
-	tokNum    = []string{"x", "--", "-4", "--ipv4", "-4=true", "-i", "-n", "-f", "-inf", "-nf", "-i4", "-4n", "-p5", "-p", "5", "-p=.5", "-4p5"}
+	leavesNum = []string{"OPTIONS", "--ipv4", "-i", "-n", "--nan", "--nan-ok", "-f", "-inf", "-p", "X"}
+	tokNum    = []string{"x", "--", "-4", "--ipv4", "-4=true", "-6", "-46", "-i", "-n", "--nan", "--nan-ok", "-f", "-inf", "-nf", "-i4", "-4n", "-p5", "-p", "5", "-p=.5", "-4p5"}
 	leavesAlt = []string{"-a", "--aa", "-m", "-nm", "-an", "-o", "--output", "OPTIONS", "X"}
 	tokAlt    = []string{"x", "--", "-a", "--aa", "-n", "-m", "-mn", "-na", "-ov", "--output=v", "--out", "-amo"}
 
@@ -30,7 +30,9 @@ var (
 		// unambiguous prefixes of declared long names are NOT spellings of them
 		"--ou=v", "--a",
 		// a value with characters that also occur in names (`_`, `-`, `=`) is bound byte for byte
-		"--out=w_-=z"}
+		"--out=w_-=z",
+		// an attached value may start with a dash or be a lone dash; an empty token is a positional
+		"-o=-a", "--out=-", ""}
 	tokMid  = []string{"x", "-", "--", "-a", "--aa", "-b", "-ab", "-o", "-ov", "--out=v", "-ao", "-z"}
 	tokTiny = []string{"x", "-", "--", "-a", "-b", "-ab", "-ov", "-z"}
 	// built-in value types: additionally values with surrounding blanks (must be bound byte for byte)
@@ -347,7 +349,7 @@ func judgeLang(c *Ctx, d *ref.Decl, spec string, node *ref.Node, argv []string, 
 		key += " declarations: --aa/-a flag, -n/-m flag, --out/-o/--output valued, X"
 	}
 	if declName(d) == "num" {
-		key += " declarations: -4/--ipv4 flag, -i flag, -n/--nan flag, -f flag, -p/--port valued, X"
+		key += " declarations: -4/--ipv4 flag, -6 flag, -i flag, -n/--nan flag, -f/--nan-ok flag, -p/--port valued, X"
 	}
 	if len(obs.Exits) > 0 || (obs.Panic != "") || obs.ActionRuns > 1 {
 		// with a well-formed spec under ContinueOnError, Run never exits, never panics, runs the Action at most once
